@@ -228,15 +228,22 @@ def r6(ctx: Ctx, rep: Report):
                 if ev.kind == "call" and (call_chain(ev.node) or ("",))[-1] in ("encode_charge", "encode_discharge"):
                     recv = (call_chain(ev.node) or ("",))[0]
                     forced = False
+                    undone = None
                     for e2 in p.events[:i]:
                         if e2.kind == "call" and (call_chain(e2.node) or ("", ""))[-1] == "set_schedule_type" and (call_chain(e2.node) or ("",))[0] == recv \
                                 and e2.node.args and norm(e2.node.args[0]) == "ScheduleType.ECO_MODE":
                             forced = True
+                            undone = None
+                        elif forced and e2.kind in ("await", "raise") and isinstance(e2.node, ast.Await):
+                            # the group definition is shared and decodes in place: anything awaited between forcing and
+                            # encoding (a getter reading eco_mode_1, another object's read) can put the old type back
+                            forced = False
+                            undone = e2.node
                     enc = (call_chain(ev.node) or ("",))[-1]
                     v = verdicts.setdefault(enc, {"ok": True, "path": None, "n": 0})
                     v["n"] += 1
                     if not forced and v["ok"]:
-                        v.update(ok=False, path=p)
+                        v.update(ok=False, path=p, undone=undone)
         if not verdicts:
             if not any(isinstance(x, ast.Attribute) and x.attr in ("encode_charge", "encode_discharge") for x in ast.walk(prog.cls(famname).methods["set_operation_mode"].node)):
                 raise AnalysisError("%s.set_operation_mode: no path reaches encode_charge / encode_discharge" % famname)
@@ -250,7 +257,9 @@ def r6(ctx: Ctx, rep: Report):
                       "%s: set_schedule_type(ScheduleType.ECO_MODE, ...) precedes %s on all %d paths" % (famname, enc, v["n"]),
                       bad="%s.set_operation_mode: %s is reached without set_schedule_type(ScheduleType.ECO_MODE, ...) %s: the group is encoded with whatever schedule type the old "
                           "group had (Unset 0x55, peak shaving, ...) and is rejected or mis-scaled [path %s]" % (
-                              famname, enc, "when reading the old group failed" if failed_read else "on the normal path", v["path"].describe(8) if v["path"] else ""))
+                              famname, enc, ("after the forcing call was followed by %s (%s): whatever is awaited there may decode the shared group again and put the old type back" % (
+                                  norm(v["undone"])[:50], s.loc(v["undone"]))) if v.get("undone") is not None else
+                              "when reading the old group failed" if failed_read else "on the normal path", v["path"].describe(8) if v["path"] else ""))
 
 
 # ----------------------------------------------------------------------- R1
